@@ -55,7 +55,27 @@ def env_unit(u) -> Stats:
     return st
 
 
+def wc6_unit(u) -> Stats:
+    """SAM computers on the WC6 family (repetitions matter there): path independence on the sub-lattice spanned by two known triples
+    and two probes, one long-lived object."""
+    _, games, comps = u
+    from .. import sam6
+    st = Stats()
+    for tag, v in games:
+        for comp in comps:
+            before = len(st.outcomes)
+            sam6.sublattice(st, v, comp, Checker(), tag)
+            probes = [c for c in A.explorable_ids(6)] if tag.endswith(":sensitive") else sam6.probe_coalitions()
+            sam6.star(st, v, comp, Checker(), tag, probes, compare_canonical=True)
+            st.nontrivial += len(st.outcomes) - before
+            if st.nviol >= 3:
+                return st
+    return st
+
+
 def dispatch(u) -> Stats:
+    if u[0] == "wc6":
+        return wc6_unit(u)
     return env_unit(u) if u[0] == "env" else lattice_unit(u)
 
 
@@ -101,6 +121,11 @@ def units(run: Run):
         for tag, gv in samples[:2 if quick else 4]:
             for comp in (FAST[:3] if n == 5 else FAST[1:3]):
                 us.append(("lat", n, f"n{n}:{tag}", gv, (comp,), ("fresh", "dirty1")))
+    # WC6: games on which the repetitions of the SAM approximation change bounds (they never do for n <= 4)
+    from .. import sam6
+    sel = sam6.sensitive_first(list(sam6.family(dense_only=True)), every=12 if quick else 3)
+    for i in range(0, len(sel), 6):
+        us.append(("wc6", sel[i:i + 6], ("sam_apx_1",) if quick else ("sam_apx_1", "sam_apx_10")))
     # env level
     g3 = A.a3_sa()
     for i, g in enumerate(g3):
@@ -119,6 +144,8 @@ def units(run: Run):
 
 
 def cost(u) -> float:
+    if u[0] == "wc6":
+        return 4000
     if u[0] == "env":
         return (2000 if not (len(u) > 6 and u[6]) else 100) if u[1] == 4 else 1
     w = {"superadditive": 3, "superadditive_cached": 1.5, "sam_apx_1": 3, "sam_apx_10": 10, "sam_apx_100": 5, "sam_apx_1000": 50}
